@@ -61,7 +61,11 @@ impl StatSlot for ConcurrencyStatSlot {
                 let metric = tc.metric();
                 match metric.concurrency_counter.get(&arg) {
                     Some(counter) => {
-                        counter.fetch_sub(1, Ordering::SeqCst);
+                        // never below zero: an entry that was admitted before the rule (and with it the
+                        // counter) existed has not been counted, a wrapped counter would block or panic
+                        let _ = counter.fetch_update(Ordering::SeqCst, Ordering::SeqCst, |c| {
+                            c.checked_sub(1)
+                        });
                     }
                     None => {
                         logging::debug!("[ConcurrencyStatSlot on_entry_passed] Parameter does not exist in ConcurrencyCounter., argument: {:?}", arg);
